@@ -35,7 +35,10 @@ def run(tier, seed):
     lines = []
     for k, rc2, so, ls in vlib.record(bins, plan, wd, seed):
         rep.traces += 1
-        if rc2 != 0: raise vlib.ModelError("recorder %s exited with %d: %s" % (k, rc2, so[-500:]))
+        if rc2 != 0:
+            # the library aborted inside a Bundle operation (Eigen assertion, crash): no action of the model allows that
+            rep.violations.append(("recorder %s aborted with %d after %d events: %s" % (k, rc2, len(ls), so[-300:].replace("\n", " ")), json.dumps({"e": "crash", "key": k})))
+            ls = [l for l in ls if l.endswith("}")]
         lines += ls
     results, st2 = vlib.validate(lines, wd, nshards=vlib.NCPU)
     rep.states += st2[0]; rep.transitions += st2[1]
